@@ -17,7 +17,7 @@ from harness.core import coqR, coqZ, coq_list
 from harness.popspec import Sub
 
 THEOREMS = ['C02_bottom_block_is_gather', 'C02_names_ids_lengths', 'C02_ids_mark_bottom', 'C02_early_return',
-            'C02_score_is_sum']
+            'C02_score_is_sum', 'C02_individual_order_free', 'C02_one_neginf_individual', 'C02_finite_iff_all_finite']
 HEADER_EXACT = c17.HEADER
 HEADER_NUM = '''From Coq Require Import Reals ZArith Lra List.
 From Coquelicot Require Import Coquelicot.
